@@ -9,6 +9,7 @@ package dastard
 
 import (
 	"fmt"
+	"github.com/usnistgov/dastard/lancero"
 	"net"
 	"os"
 	"path/filepath"
@@ -714,6 +715,154 @@ func v10AbacoUDP(x *vexp.X, overlap bool) vexp.Result {
 	return vexp.Result{Nontrivial: true, Outcome: "failed-start-then-start-ok"}
 }
 
+// v10RPCHistory (S10): "a failed Start leaves the source inactive and able to be started successfully later; the same
+// source can be configured and started again", through the SourceControl methods clients call, for the sources
+// that dastard itself owns (one object per type for the life of the server): a configuration request that is
+// rejected, a Start, then a valid configuration and a Start that must succeed, deliver a block, and stop; twice.
+// Free-running (the Lancero path samples a lancero.NoHardware card in real time): one execution per source type.
+func v10RPCHistory(x *vexp.X, kind string) vexp.Result {
+	bad := func(class, f string, a ...interface{}) vexp.Result {
+		return vexp.Result{Violation: "S10-rpc/" + kind + ": " + fmt.Sprintf(f, a...), Class: class, Nontrivial: true}
+	}
+	sc := NewSourceControl()
+	sc.status.Npresamp, sc.status.Nsamples = 4, 12
+	updates := make(chan ClientUpdate, 256)
+	sc.clientUpdates = updates
+	var blocks int64
+	stop := make(chan struct{})
+	defer close(stop)
+	go func() { // what the client updater and RunRPCServer's heartbeat loop do: drain
+		for {
+			select {
+			case <-updates:
+			case h := <-sc.heartbeats:
+				if h.Running && h.DataMB > 0 {
+					atomic.AddInt64(&blocks, 1)
+				}
+			case <-stop:
+				return
+			}
+		}
+	}()
+	v17Ticks = make(chan time.Time)
+	go func() { // the hardware readers' ticker is a seam in this build
+		for {
+			select {
+			case v17Ticks <- time.Time{}:
+				time.Sleep(time.Millisecond)
+			case <-stop:
+				return
+			}
+		}
+	}()
+	vSimTicks = 1 << 20
+	ok := false
+	var name string
+	var configure func(valid bool) error
+	// progress: something that grows with every block the running source delivers (read without synchronisation:
+	// harness-only, and only used to wait)
+	progress := func() int64 { return atomic.LoadInt64(&blocks) }
+	switch kind {
+	case "triangle":
+		name = "TRIANGLESOURCE"
+		progress = func() int64 { return int64(sc.triangle.nextFrameNum) }
+		configure = func(valid bool) error {
+			c := TriangleSourceConfig{Nchan: 2, SampleRate: 100000, Min: 100, Max: 200}
+			if !valid {
+				c.Nchan = -1
+			}
+			return sc.ConfigureTriangleSource(&c, &ok)
+		}
+	case "simpulse":
+		name = "SIMPULSESOURCE"
+		progress = func() int64 { return int64(sc.simPulses.nextFrameNum) }
+		configure = func(valid bool) error {
+			c := SimPulseSourceConfig{Nchan: 2, SampleRate: 100000, Pedestal: 1000, Amplitudes: []float64{5000}, Nsamp: 200}
+			if !valid {
+				c.Nchan = 0
+			}
+			return sc.ConfigureSimPulseSource(&c, &ok)
+		}
+	case "lancero":
+		name = "LANCEROSOURCE"
+		card, err := lancero.NewNoHardware(1, 4, 1000)
+		if err != nil {
+			panic("harness: " + err.Error())
+		}
+		sc.lancero.devices[0] = &LanceroDevice{card: card, devnum: 0}
+		sc.lancero.ncards = 1
+		saved := cringeGlobalsPath
+		defer func() { cringeGlobalsPath = saved }()
+		cringeGlobalsPath = filepath.Join(os.Getenv("TMPDIR"), fmt.Sprintf("cringeGlobals_%d.json", os.Getpid()))
+		os.Remove(cringeGlobalsPath)
+		defer os.Remove(cringeGlobalsPath)
+		configure = func(valid bool) error {
+			if valid { // Cringe has written its file by now
+				globals := `{"SETT": 18, "seqln": 4, "lsync": 1000, "testpattern": 2, "propagationdelay": 9, "NSAMP": 4, "carddelay": 7, "XPT": 3}`
+				if err := os.WriteFile(cringeGlobalsPath, []byte(globals), 0644); err != nil {
+					panic("harness: " + err.Error())
+				}
+			}
+			c := LanceroSourceConfig{CardDelay: []int{0}, ActiveCards: []int{0}, FirstRow: 1}
+			return sc.ConfigureLanceroSource(&c, &ok)
+		}
+	}
+	stopAndCheck := func(when string) *vexp.Result {
+		d := ""
+		done := make(chan error, 1)
+		go func() { done <- sc.Stop(&d, &ok) }()
+		select {
+		case err := <-done:
+			if err != nil {
+				r := bad("stop-error", "%s: Stop returned %v", when, err)
+				return &r
+			}
+		case <-time.After(60 * time.Second):
+			r := bad("stop-does-not-return", "%s: Stop has not returned after 60 s", when)
+			return &r
+		}
+		if st := sc.ActiveSource.GetState(); st != Inactive {
+			r := bad("not-inactive", "%s: after Stop the source state is %v", when, st)
+			return &r
+		}
+		return nil
+	}
+	x.Steps = 6
+	err0 := configure(false)
+	if err0 == nil {
+		return bad("invalid-configuration-accepted", "the invalid configuration was accepted")
+	}
+	err1 := sc.Start(&name, &ok)
+	x.Logf("rejected configuration: %v; Start after it: %v", err0, err1)
+	if err1 == nil { // started with whatever configuration was in force before: stop it again
+		if r := stopAndCheck("after the Start that followed the rejected configuration"); r != nil {
+			return *r
+		}
+	} else if sc.isSourceActive {
+		return bad("failed-start-not-inactive", "Start failed (%v) but SourceControl believes a source is active", err1)
+	}
+	for cycle := 1; cycle <= 2; cycle++ {
+		if err := configure(true); err != nil {
+			return bad("valid-configuration-rejected", "cycle %d: the valid configuration is rejected: %v", cycle, err)
+		}
+		if err := sc.Start(&name, &ok); err != nil {
+			return bad("restart-after-failed-start", "cycle %d: after a rejected configuration (%v) and the Start that followed it (%v), the source was configured successfully but cannot be started: %v", cycle, err0, err1, err)
+		}
+		before := progress()
+		t0 := time.Now()
+		for progress() == before {
+			if time.Since(t0) > 60*time.Second {
+				return bad("no-block-after-start", "cycle %d: Start succeeded but no data arrived within 60 s", cycle)
+			}
+			time.Sleep(time.Millisecond)
+		}
+		if r := stopAndCheck(fmt.Sprintf("cycle %d", cycle)); r != nil {
+			return *r
+		}
+	}
+	return vexp.Result{Nontrivial: true, Outcome: fmt.Sprintf("first-start-failed=%v then 2 cycles ok", err1 != nil)}
+}
+
 func TestVerifC10(t *testing.T) {
 	r := vexp.NewRunner("C10")
 	r.CrashTrace = true
@@ -724,7 +873,7 @@ func TestVerifC10(t *testing.T) {
 	if r.Thorough() {
 		pbCore, pbWide, pbDelay = 3, 2, 5
 	}
-	r.SetBound(fmt.Sprintf("all interleavings (all select alternatives) with at most %d preemptions for the core scenarios (Start + 2 concurrent Stop callers against the real CoreLoop and a scripted producer that runs normally / sends an error block / closes its channel) and at most %d for the wider ones (Start || Start, 1-2 blocks before the event, 3 Stop callers, writing active or paused, a request handed to the core loop while Stop is called, Start/Stop/Start histories incl. a first Start failing in Sample, PrepareRun or StartRun), each followed by a restart of the same source object; and the real AbacoSource (scripted packet producer, clock thread) and LanceroSource (scripted card, clock thread) and the real TriangleSource / SimPulseSource (timers behind a seam: ready three times per execution) under Start, a queued request and Stop; one free-running history with a real UDP receiver (Start while nothing is sending, or while overlapping channel groups are being sent, fails; then the same source, configured again, starts once proper packets flow); the request and Abaco scenarios are delay-bounded: at most %d deviations of any kind (thread choice or select alternative) from the canonical schedule", pbCore, pbWide, pbDelay))
+	r.SetBound(fmt.Sprintf("all interleavings (all select alternatives) with at most %d preemptions for the core scenarios (Start + 2 concurrent Stop callers against the real CoreLoop and a scripted producer that runs normally / sends an error block / closes its channel) and at most %d for the wider ones (Start || Start, 1-2 blocks before the event, 3 Stop callers, writing active or paused, a request handed to the core loop while Stop is called, Start/Stop/Start histories incl. a first Start failing in Sample, PrepareRun or StartRun), each followed by a restart of the same source object; and the real AbacoSource (scripted packet producer, clock thread) and LanceroSource (scripted card, clock thread) and the real TriangleSource / SimPulseSource (timers behind a seam: ready three times per execution) under Start, a queued request and Stop; free-running histories through the SourceControl methods (rejected configuration, Start, valid configuration, Start/Stop twice) for the Triangle, SimPulse and Lancero (NoHardware card) sources, and with a real UDP receiver (Start while nothing is sending, or while overlapping channel groups are being sent, fails; then the same source, configured again, starts once proper packets flow); the request and Abaco scenarios are delay-bounded: at most %d deviations of any kind (thread choice or select alternative) from the canonical schedule", pbCore, pbWide, pbDelay))
 	dir := filepath.Join(os.Getenv("TMPDIR"), "c10")
 	os.MkdirAll(dir, 0755)
 	var scs []v10Scenario
@@ -767,6 +916,10 @@ func TestVerifC10(t *testing.T) {
 	}
 	if r.Thorough() {
 		scs = append(scs, v10Scenario{name: "S6-abaco/two-requests", abaco: true, nblocks: 1, nreq: 2, delay: true})
+	}
+	for _, kind := range []string{"triangle", "simpulse", "lancero"} {
+		kind := kind
+		r.DFS("S10-rpc/"+kind+"/rejected-configuration-then-start", -1, func(x *vexp.X) vexp.Result { return v10RPCHistory(x, kind) })
 	}
 	r.DFS("S9-abaco-udp/nothing-sending-then-start", -1, func(x *vexp.X) vexp.Result { return v10AbacoUDP(x, false) })
 	r.DFS("S9-abaco-udp/overlapping-groups-then-start", -1, func(x *vexp.X) vexp.Result { return v10AbacoUDP(x, true) })
